@@ -74,6 +74,9 @@ unsafe impl<T: 'static> LocalRef<T> for PooledLocalRef<T> {
         unsafe {
             destroy_local_event(self.event);
         }
+
+        #[cfg(folo_verif)]
+        crate::verif::notify_release(self.event.as_ptr() as usize);
     }
 }
 
